@@ -3,6 +3,7 @@ package english
 import (
 	"fmt"
 	"sort"
+	"time"
 
 	sdk "github.com/cosmos/cosmos-sdk/types"
 
@@ -41,6 +42,7 @@ type StC struct {
 	IDs     map[string][]int64          `json:"ids"`
 	Vaults  []VaultRec                  `json:"vaults"`
 	VInt    []int64                     `json:"vint"` // InterestAccumulated per vault (same order), environment amounts
+	LAge    []int64                     `json:"lage"` // seconds since each locker's savings were last settled (same order as lockers)
 	Nf      map[string]map[string]int64 `json:"nf"`
 	Bal     map[string]map[string]int64 `json:"bal"`
 	NL      int64                       `json:"nl"`
@@ -61,14 +63,17 @@ var actorsC = []string{"u1", "u2", "u3", "col", "lock"}
 var denomsC = []string{"ucmst", "uatom", "uharbor"}
 var appName = map[uint64]string{App1: "a1", App2: "a2"}
 var appID = map[string]uint64{"a1": App1, "a2": App2}
+var extPair = map[uint64]uint64{App1: 1, App2: 2} // extended pair vault ids in creation order
 
 func (w *World) ProjectC() StC {
-	s := StC{T: w.T(), Lockers: []LockerRec{}, Dep: map[string]int64{}, IDs: map[string][]int64{}, Vaults: []VaultRec{}, VInt: []int64{},
+	s := StC{T: w.T(), Lockers: []LockerRec{}, Dep: map[string]int64{}, IDs: map[string][]int64{}, Vaults: []VaultRec{}, VInt: []int64{}, LAge: []int64{},
 		Nf: map[string]map[string]int64{}, Bal: w.Balances(actorsC, denomsC), LsrOn: map[string]bool{}}
-	for _, l := range w.App.LockerKeeper.GetLockers(w.Ctx) {
+	ls := w.App.LockerKeeper.GetLockers(w.Ctx)
+	sort.SliceStable(ls, func(i, j int) bool { return ls[i].LockerId < ls[j].LockerId })
+	for _, l := range ls {
 		s.Lockers = append(s.Lockers, LockerRec{ID: int64(l.LockerId), Owner: actorOf(l.Depositor), App: appName[l.AppId], Net: l.NetBalance.Int64()})
+		s.LAge = append(s.LAge, int64(w.Ctx.BlockTime().Sub(l.BlockTime)/time.Second))
 	}
-	sort.SliceStable(s.Lockers, func(i, j int) bool { return s.Lockers[i].ID < s.Lockers[j].ID })
 	for app, name := range appName {
 		s.IDs[name] = []int64{}
 		if lk, ok := w.App.CollectorKeeper.GetCollectorLookupTable(w.Ctx, app, AssetCmst); ok {
@@ -143,25 +148,31 @@ func (r *runnerC) execC(w *World, parent int, a string, args map[string]interfac
 	app := appID[argS(args, "app")]
 	amt := sdk.NewInt(argI(args, "amt"))
 	id := uint64(argI(args, "id"))
+	asset := uint64(AssetCmst)
+	for aid, d := range Denoms {
+		if d == argS(args, "asset") {
+			asset = aid
+		}
+	}
 	switch a {
 	case "CreateLocker":
-		res = resMap(w.Deliver(&lockertypes.MsgCreateLockerRequest{Depositor: u, Amount: amt, AssetId: AssetCmst, AppId: app}))
+		res = resMap(w.Deliver(&lockertypes.MsgCreateLockerRequest{Depositor: u, Amount: amt, AssetId: asset, AppId: app}))
 	case "DepositLocker":
-		res = resMap(w.Deliver(&lockertypes.MsgDepositAssetRequest{Depositor: u, LockerId: id, Amount: amt, AssetId: AssetCmst, AppId: app}))
+		res = resMap(w.Deliver(&lockertypes.MsgDepositAssetRequest{Depositor: u, LockerId: id, Amount: amt, AssetId: asset, AppId: app}))
 	case "WithdrawLocker":
-		res = resMap(w.Deliver(&lockertypes.MsgWithdrawAssetRequest{Depositor: u, LockerId: id, Amount: amt, AssetId: AssetCmst, AppId: app}))
+		res = resMap(w.Deliver(&lockertypes.MsgWithdrawAssetRequest{Depositor: u, LockerId: id, Amount: amt, AssetId: asset, AppId: app}))
 	case "CloseLocker":
-		res = resMap(w.Deliver(&lockertypes.MsgCloseLockerRequest{Depositor: u, AppId: app, AssetId: AssetCmst, LockerId: id}))
+		res = resMap(w.Deliver(&lockertypes.MsgCloseLockerRequest{Depositor: u, AppId: app, AssetId: asset, LockerId: id}))
 	case "RewardCalc":
 		res = resMap(w.Deliver(&lockertypes.MsgLockerRewardCalcRequest{From: u, AppId: app, LockerId: id}))
 	case "VaultCreate":
-		res = resMap(w.Deliver(&vaulttypes.MsgCreateRequest{From: u, AppId: app, ExtendedPairVaultId: app, AmountIn: sdk.NewInt(argI(args, "in")), AmountOut: sdk.NewInt(argI(args, "out"))}))
+		res = resMap(w.Deliver(&vaulttypes.MsgCreateRequest{From: u, AppId: app, ExtendedPairVaultId: extPair[app], AmountIn: sdk.NewInt(argI(args, "in")), AmountOut: sdk.NewInt(argI(args, "out"))}))
 	case "VaultDraw":
-		res = resMap(w.Deliver(&vaulttypes.MsgDrawRequest{From: u, AppId: app, ExtendedPairVaultId: app, UserVaultId: id, Amount: amt}))
+		res = resMap(w.Deliver(&vaulttypes.MsgDrawRequest{From: u, AppId: app, ExtendedPairVaultId: extPair[app], UserVaultId: id, Amount: amt}))
 	case "VaultRepay":
-		res = resMap(w.Deliver(&vaulttypes.MsgRepayRequest{From: u, AppId: app, ExtendedPairVaultId: app, UserVaultId: id, Amount: amt}))
+		res = resMap(w.Deliver(&vaulttypes.MsgRepayRequest{From: u, AppId: app, ExtendedPairVaultId: extPair[app], UserVaultId: id, Amount: amt}))
 	case "VaultClose":
-		res = resMap(w.Deliver(&vaulttypes.MsgCloseRequest{From: u, AppId: app, ExtendedPairVaultId: app, UserVaultId: id}))
+		res = resMap(w.Deliver(&vaulttypes.MsgCloseRequest{From: u, AppId: app, ExtendedPairVaultId: extPair[app], UserVaultId: id}))
 	case "InterestCalc":
 		res = resMap(w.Deliver(&vaulttypes.MsgVaultInterestCalcRequest{From: u, AppId: app, UserVaultId: id}))
 	case "Block":
@@ -228,11 +239,53 @@ func DriveC(lg *sim.Log, seed int64, runs, steps int) {
 		x = [][2]int64{{1, 20}, {1, 10}, {0, 1}}[rng.Pick(3)]
 		c.VcN, c.VcD = x[0], x[1]
 		c.Fund = rng.PickI64([]int64{200, 1000})
+		directed := k%3 == 0
+		if directed {
+			c.Lsr, c.DdN, c.DdD, c.Fund = "0.05", 1, 10, 1000
+		}
 		w := NewWorld(c)
 		r := &runnerC{lg: lg, run: fmt.Sprintf("drive:%d:%d", seed, k)}
 		cur := r.add(w, 0, "Init", cfgArgs(c), nil)
 		apps := []string{"a1", "a2"}
 		price := int64(2000000)
+		if directed {
+			// both apps earn fees, several lockers per (app, asset) accrue savings for a year; then the entry points that
+			// touch the books with arguments that do not belong together, and the governance saving-rate changes
+			step := func(a string, m map[string]interface{}) {
+				for k, v := range map[string]interface{}{"u": "", "app": "", "asset": "ucmst", "id": int64(0), "amt": int64(0)} {
+					if _, ok := m[k]; !ok {
+						m[k] = v
+					}
+				}
+				cur = r.execC(w, cur, a, m)
+			}
+			step("VaultCreate", map[string]interface{}{"u": "u1", "app": "a1", "in": int64(450), "out": int64(300)})
+			step("VaultCreate", map[string]interface{}{"u": "u2", "app": "a2", "in": int64(450), "out": int64(300)})
+			owners := [][2]string{{"u1", "a1"}, {"u2", "a1"}, {"u3", "a2"}, {"u1", "a2"}, {"u3", "a1"}}
+			for _, o := range owners[:3+rng.Pick(3)] {
+				step("CreateLocker", map[string]interface{}{"u": o[0], "app": o[1], "amt": rng.PickI64([]int64{60, 100})})
+			}
+			step("Block", map[string]interface{}{"dt": int64(365 * 86400)})
+			st := r.preOf(cur)
+			for _, l := range st.Lockers {
+				other := "a1"
+				if l.App == "a1" {
+					other = "a2"
+				}
+				switch rng.Pick(4) {
+				case 0:
+					step("RewardCalc", map[string]interface{}{"u": rng.PickS(Users), "app": other, "id": l.ID})
+				case 1:
+					step("WithdrawLocker", map[string]interface{}{"u": l.Owner, "app": other, "id": l.ID, "amt": int64(7)})
+				case 2:
+					step("DepositLocker", map[string]interface{}{"u": l.Owner, "app": l.App, "asset": "uharbor", "id": l.ID, "amt": int64(7)})
+				}
+			}
+			step("RewardCalc", map[string]interface{}{"u": "u2", "app": "a2", "id": st.Lockers[0].ID}) // locker of a1 named under a2
+			step("LsrChange", map[string]interface{}{"app": "a1", "lsr": "0.07", "u": "u1"})
+			step("Block", map[string]interface{}{"dt": int64(365 * 86400)})
+			step("LsrChange", map[string]interface{}{"app": rng.PickS(apps), "lsr": rng.PickS([]string{"0", "0.02"}), "u": "u1"})
+		}
 		for i := 0; i < steps; i++ {
 			st := r.preOf(cur)
 			args := map[string]interface{}{}
@@ -255,8 +308,11 @@ func DriveC(lg *sim.Log, seed int64, runs, steps int) {
 				if rng.Pick(10) == 0 {
 					args["u"] = rng.PickS(Users) // somebody else's locker
 				}
-				if rng.Pick(15) == 0 {
-					args["app"] = rng.PickS(apps)
+				if rng.Pick(6) == 0 {
+					args["app"] = rng.PickS(apps) // a locker id together with an app it may not belong to
+				}
+				if rng.Pick(12) == 0 {
+					args["asset"] = rng.PickS([]string{"uatom", "uharbor"}) // ... or with another asset id
 				}
 				net := l.Net
 				cand := []int64{1, net / 2, net - 1, net, net + 1, net + 50, 7}
@@ -278,6 +334,9 @@ func DriveC(lg *sim.Log, seed int64, runs, steps int) {
 			case 0:
 				a = "CreateLocker"
 				args["u"], args["app"], args["amt"], args["id"] = rng.PickS(Users), rng.PickS(apps), rng.PickI64([]int64{1, 10, 25, 100}), int64(0)
+				if rng.Pick(15) == 0 {
+					args["asset"] = rng.PickS([]string{"uatom", "uharbor"})
+				}
 			case 1:
 				a = "DepositLocker"
 				pickLocker()
@@ -334,6 +393,9 @@ func DriveC(lg *sim.Log, seed int64, runs, steps int) {
 				if _, ok := args[k]; !ok {
 					args[k] = ""
 				}
+			}
+			if _, ok := args["asset"]; !ok {
+				args["asset"] = "ucmst"
 			}
 			for _, k := range []string{"id", "amt"} {
 				if _, ok := args[k]; !ok {
